@@ -262,6 +262,17 @@ type exec struct {
 	m          model
 	snapshot0  string
 	infraError string
+	// notes: observations that are NOT violations of C41 (the property bounds
+	// what an unauthorized connection can do from above; it does not promise
+	// that the allowed requests succeed) but show the run is not vacuous
+	notes map[string]int
+}
+
+func (x *exec) note(s string) {
+	if x.notes == nil {
+		x.notes = map[string]int{}
+	}
+	x.notes[s]++
 }
 
 type failure struct {
@@ -564,6 +575,9 @@ func (x *exec) step(rq *req) (fails []failure, diverged bool, skipped bool) {
 		if !r.ok && cm.sessionName != "" {
 			cm.nameUnknown = true
 		}
+		if !r.ok {
+			x.note("refused while unauthorized: " + commandName(rq.Cmd))
+		}
 		if r.ok {
 			fail("", "request succeeded on an unauthorized connection (response %q)", string(r.r.B))
 			diverged = true
@@ -576,11 +590,13 @@ func (x *exec) step(rq *req) (fails []failure, diverged bool, skipped bool) {
 		}
 	case "allow":
 		if !r.ok {
-			fail("", "documented as allowed without authorization but refused: %s", r.errText)
+			x.note("allowed request refused (not a C41 violation): " + rq.Name)
+		} else {
+			x.note("allowed request answered while unauthorized: " + rq.Name)
 		}
 	case "sessionid":
 		if !r.ok {
-			fail("", "documented as allowed without authorization but refused: %s", r.errText)
+			x.note("allowed request refused (not a C41 violation): " + rq.Name)
 		} else {
 			got := r.r.Str()
 			if rq.Arg != "" {
@@ -592,7 +608,7 @@ func (x *exec) step(rq *req) (fails []failure, diverged bool, skipped bool) {
 		}
 	case "nonce":
 		if !r.ok {
-			fail("", "documented as allowed without authorization but refused: %s", r.errText)
+			x.note("allowed request refused (not a C41 violation): " + rq.Name)
 		} else {
 			n := r.r.Str()
 			if len(n) == 0 {
@@ -646,7 +662,7 @@ func (x *exec) step(rq *req) (fails []failure, diverged bool, skipped bool) {
 		}
 		if !r.ok {
 			if legit {
-				fail("", "legitimate Auth (%s) answered with an error: %s", why, r.errText)
+				x.note("legitimate Auth answered with an error (not a C41 violation)")
 			}
 			break
 		}
@@ -663,11 +679,13 @@ func (x *exec) step(rq *req) (fails []failure, diverged bool, skipped bool) {
 			fail(class, "Auth(%s) returned true without a valid credential (nonce current=%v, token=%+v)", rq.Arg, nonce != "", tok)
 			diverged = true
 		case !result && legit:
-			fail("", "legitimate Auth (%s) returned false", why)
-			diverged = true
+			x.note("legitimate Auth returned false (not a C41 violation): " + why)
 		case result:
+			x.note("legitimate Auth accepted: " + why)
 			cm.auth = true
 			x.m.everAuth = true
+		default:
+			x.note("illegitimate Auth refused: " + rq.Arg)
 		}
 	}
 	return fails, diverged, false
@@ -754,6 +772,7 @@ type caseT struct {
 }
 
 type outcome struct {
+	notes    map[string]int
 	fails    []failure
 	executed int  // requests sent and judged
 	diverged bool // stop extending this prefix
@@ -805,8 +824,11 @@ func runSeq(alpha map[string]*req, seq []string) outcome {
 		}
 	}
 	out.stateKey = x.m.key()
+	out.notes = x.notes
 	return out
 }
+
+func commandName(c commands.Command) string { return c.String() }
 
 func run(c *lib.Ctx) {
 	cspipe.Init()
@@ -854,6 +876,9 @@ func run(c *lib.Ctx) {
 		c.Transition(o.executed)
 		c.TraceValidated(o.executed)
 		c.Nontrivial(1)
+		for k, v := range o.notes {
+			c.Count(k, v)
+		}
 		if !states[o.stateKey] {
 			states[o.stateKey] = true
 			c.Distinct("model state " + o.stateKey)
